@@ -36,6 +36,7 @@ func main() {
 		"types of the values. A value case is non-trivial when the value is a collection with at least two elements of different inferred types; a common-type " +
 		"case is non-trivial when neither operand accepts the other; distinct = distinct recipes"
 	pcore.Do(func(c px.Context) {
+		theCtx = c
 		if cfg.Replay != "" {
 			replay(cfg, res)
 		} else {
@@ -44,6 +45,9 @@ func main() {
 	})
 	res.Write(cfg)
 }
+
+// theCtx: the context of the run (px.Wrap of Go values, the loader of the Object types of runtime.go)
+var theCtx px.Context
 
 // ---------------------------------------------------------------------------------------------
 // guarded calls on the implementation
@@ -860,6 +864,9 @@ func run(cfg *lib.Config, res *lib.Result) {
 
 	// ---- D + M: histories of inference on values that share parts (hist.go)
 	runHistories(cfg, res, rng.Fork())
+
+	// ---- D + M: leaf types with a second identity behind the printed form (runtime.go)
+	runRuntime(cfg, res, theCtx)
 }
 
 // ---------------------------------------------------------------------------------------------
@@ -1075,6 +1082,8 @@ func replay(cfg *lib.Config, res *lib.Result) {
 			replayHistory(in, res, cfg)
 		case "mutable-hash":
 			replayMutable(in, res)
+		case "runtime":
+			replayRuntime(in, res, theCtx)
 		case "value":
 			v := x.V.Build()
 			pt, dt := v.PType(), px.DetailedValueType(v)
